@@ -33,7 +33,7 @@ at the reference end of the codeword, and read the same sentinel; a None from a 
 codeword can produce are counted as unreachable. Strict tail: all values below 1100 (and larger) placed so that the codeword ends in the last \
 word of a strict stream at every alignment, so that the look-ahead crosses the end. Writer cases: all values 0..=WRITE_MAX+64 and around powers \
 of two, every table option and the direct write_table_* call, all writer words, offsets rotating: bytes and returned lengths equal the \
-reference. Length tables: len_*_param::<true> == <false> == reference for 0..=table length+64. Readers are restricted by the library's own \
+reference. Length tables: len_*_param::<true> == <false> == reference for 0..=table length+64 and for values 2^k + (a table index) with k up to 63. Readers are restricted by the library's own \
 diagnostics, measured at start-up (D7). Non-trivial: codeword length within +-1 of the index width, or the look-ahead crosses a reader word \
 boundary or the end of a strict stream, or more than one word was buffered; distinct = distinct case hashes.",
     assumptions: &["reference decoder", "D7: (reader, table) pairs for which construction printed the DANGER diagnostic are excluded (measured from this tree)"],
@@ -340,6 +340,13 @@ fn run(ctx: &Ctx, env: &Env) -> Stats {
             while s < n as u64 + 64 {
                 part.check(&Case::Len { code, from: s, n: 32 }, &f);
                 s += 32;
+            }
+            // values far above the table whose low bits look like table indices (a truncated index would hit the table)
+            for sh in [16u32, 31, 32, 33, 40, 48, 56, 62, 63] {
+                for low in [0u64, 1, 7, 100, n as u64 - 1] {
+                    let from = (1u64 << sh) | low;
+                    part.check(&Case::Len { code, from: from.min(u64::MAX - 40), n: 4 }, &f);
+                }
             }
         }
         part.finish()
